@@ -59,6 +59,7 @@ def units(ctx):
     for i in range(len(SIGOPTS)):
         yield ("sig", i)
     yield from hist.hist_units()
+    yield ("long", 0)
 
 
 def _fam(ms, durs=None):
@@ -68,6 +69,17 @@ def _fam(ms, durs=None):
 
 
 def gen_cases(unit, ctx):
+    if unit[0] == "long":
+        p, (c0, c1) = ctx["p"], ctx["ch"]
+        for n in (16, 48, 120):
+            ns = lib.long_desc(n, p, (c0, c1, 3), 5, lens=(3, 9, 5, 14))
+            shifted = [(o + 2, l, pp, cc, 64) for (o, l, pp, cc, v) in ns]      # overlaps every note of the original
+            for k in (2, 3):
+                yield {"members": [{"notes": [list(x) for x in ns[i::k]], "events": [["ts", 0, 3, 4]] if i == 0 else [], "dur": None}
+                                   for i in range(k)]}
+            yield {"members": [{"notes": [list(x) for x in ns], "events": [], "dur": None},
+                               {"notes": [list(x) for x in shifted], "events": [["ks", 7, "G"]], "dur": 5 * n + 50}]}
+        return
     if unit[0] == "hist":
         p, (c0, c1) = ctx["p"], ctx["ch"]
         for h in hist.hist_of_unit(unit):
